@@ -26,9 +26,12 @@ pub mod c04;
 pub mod c05;
 pub mod c06;
 pub mod c07;
+pub mod c08;
 pub mod c09;
 pub mod c10;
 pub mod c11;
+pub mod c12;
+pub mod c13;
 pub mod c14;
 pub mod c15;
 pub mod c16;
@@ -37,7 +40,7 @@ pub mod c18;
 pub mod c19;
 pub mod c20;
 
-pub const ALL: &[&str] = &["C01", "C02", "C03", "C04", "C05", "C06", "C07", "C09", "C10", "C11", "C14", "C15", "C16", "C17", "C18", "C19", "C20"];
+pub const ALL: &[&str] = &["C01", "C02", "C03", "C04", "C05", "C06", "C07", "C08", "C09", "C10", "C11", "C12", "C13", "C14", "C15", "C16", "C17", "C18", "C19", "C20"];
 
 pub fn lookup(id: &str) -> Option<Prop> {
     match id {
@@ -48,9 +51,12 @@ pub fn lookup(id: &str) -> Option<Prop> {
         "C05" => Some(Prop { id: "C05", spec: c05::spec, run: c05::run, replay: c05::replay }),
         "C06" => Some(Prop { id: "C06", spec: c06::spec, run: c06::run, replay: c06::replay }),
         "C07" => Some(Prop { id: "C07", spec: c07::spec, run: c07::run, replay: c07::replay }),
+        "C08" => Some(Prop { id: "C08", spec: c08::spec, run: c08::run, replay: c08::replay }),
         "C09" => Some(Prop { id: "C09", spec: c09::spec, run: c09::run, replay: c09::replay }),
         "C10" => Some(Prop { id: "C10", spec: c10::spec, run: c10::run, replay: c10::replay }),
         "C11" => Some(Prop { id: "C11", spec: c11::spec, run: c11::run, replay: c11::replay }),
+        "C12" => Some(Prop { id: "C12", spec: c12::spec, run: c12::run, replay: c12::replay }),
+        "C13" => Some(Prop { id: "C13", spec: c13::spec, run: c13::run, replay: c13::replay }),
         "C14" => Some(Prop { id: "C14", spec: c14::spec, run: c14::run, replay: c14::replay }),
         "C15" => Some(Prop { id: "C15", spec: c15::spec, run: c15::run, replay: c15::replay }),
         "C16" => Some(Prop { id: "C16", spec: c16::spec, run: c16::run, replay: c16::replay }),
